@@ -929,3 +929,53 @@ func Syms(ts []*Term) []*Term {
 	sort.Slice(out, func(i, j int) bool { return out[i].Name < out[j].Name })
 	return out
 }
+
+// Subst replaces symbols by terms (memoised per call).
+func (tb *TermBuilder) Subst(t *Term, m map[*Term]*Term, memo map[*Term]*Term) *Term {
+	if len(m) == 0 {
+		return t
+	}
+	if r, ok := memo[t]; ok {
+		return r
+	}
+	var r *Term
+	switch t.Op {
+	case "const":
+		r = t
+	case "sym":
+		if x, ok := m[t]; ok {
+			r = x
+		} else {
+			r = t
+		}
+	default:
+		changed := false
+		args := make([]*Term, len(t.Args))
+		for i, a := range t.Args {
+			args[i] = tb.Subst(a, m, memo)
+			if args[i] != a {
+				changed = true
+			}
+		}
+		if !changed {
+			r = t
+		} else {
+			switch t.Op {
+			case "and":
+				r = tb.And(args...)
+			case "or":
+				r = tb.Or(args...)
+			case "not":
+				r = tb.Not(args[0])
+			case "=":
+				r = tb.Eq(args[0], args[1])
+			case "ite":
+				r = tb.Ite(args[0], args[1], args[2])
+			default:
+				r = tb.mk(t.Op, t.Sort, args...)
+			}
+		}
+	}
+	memo[t] = r
+	return r
+}
